@@ -346,7 +346,9 @@ def flow_spec(rng, i):
         kt = "rsa2048"
     return {"key_type": kt, "chain_len": 1 + (i % 4), "renew_over_longer": i % 2 == 1,
             "ids": rng.choice([["example.org"], ["a.example.org", "b.example.org"], ["xn--bcher-kva.example"]]),
-            "kp_reuse": i % 6 == 5, "chain_sep": "\n" if i % 5 == 2 else ""}
+            "kp_reuse": i % 6 == 5, "chain_sep": "\n" if i % 5 == 2 else "",
+            # every fourth flow gets a BIG chain (tens of kilobytes: past any fixed-size buffer)
+            "chain_pad": [0, 0, 0, 120][i % 4]}
 
 
 def run_flow(spec, root, helper):
@@ -378,7 +380,8 @@ def run_flow(spec, root, helper):
                 f.write(k["pem"] + "# residue-marker\n" * 600)
         os.chmod(key_path, 0o600)
         pre_key["pub"] = k["pub_der_hex"]
-    obs = flow.run_scenario(root, [cert], ca_opts={"chain_len": spec["chain_len"], "chain_sep": spec.get("chain_sep", "")}, timeout=40, helper=helper, pre=pre)
+    obs = flow.run_scenario(root, [cert], ca_opts={"chain_len": spec["chain_len"], "chain_sep": spec.get("chain_sep", ""),
+                                                    "chain_pad": spec.get("chain_pad", 0)}, timeout=40, helper=helper, pre=pre)
     return obs, crt_path, key_path, pre_key
 
 
